@@ -74,7 +74,7 @@ def _input_vars(ts, h, t, consts, layer):
                 ins[pname] = consts.setdefault(name, z3.BitVec(f"{name}", width))
             else:
                 ins[pname] = z3.BitVec(f"{name}@{t}", width)
-        elif pname.endswith("_clk") or pname.endswith("_rst"):
+        elif pname.endswith("_clk") or pname.endswith("_rst") or pname in ("clk", "rst"):
             ins[pname] = bv(0, 1)
         else:
             raise KeyError(f"top-level input {pname} is not a registered harness input")
@@ -195,6 +195,100 @@ class Unrolling:
         return self.frames[t].sig(s)
 
 
+class Template:
+    """one symbolic frame per distinct set of ticking clock domains, instantiated with z3.substitute"""
+
+    def __init__(self, ts, watched, schedule):
+        self.ts = ts
+        tstate = ts.free_state("T$")
+        tins = {pname: z3.BitVec(f"TI${pname}", width) for pname, (start, width) in ts.inputs.items()}
+        self.skeys = []            # (cell, None) for flops/rports, (cell, addr) for memory words
+        tvars = []
+        for i in ts.flops + ts.srports:
+            self.skeys.append((i, None))
+            tvars.append(tstate[i])
+        for i in ts.mems:
+            if ts.wports.get(i):
+                for a in range(ts.cells[i].depth):
+                    self.skeys.append((i, a))
+                    tvars.append(tstate[i][a])
+        self.tvars = tvars
+        self.tin_names = list(tins)
+        self.tin_vars = [tins[n] for n in self.tin_names]
+        self.domsets = [None] if schedule is None else [frozenset(d) for d in schedule]
+        self.templates = {}
+        for ds in set(self.domsets):
+            f = ts.frame(tstate, tins)
+            ns = f.next_state(None if ds is None else set(ds))
+            outs = [f.sig(s) for s in watched]
+            nxt = [ns[i] if a is None else ns[i][a] for (i, a) in self.skeys]
+            allx = outs + nxt
+            F = z3.Function(f"T$tuple{len(self.templates)}", *[x.sort() for x in allx], z3.BoolSort())
+            self.templates[ds] = (F(*allx), len(outs))
+
+    def init_values(self, init):
+        return [init[i] if a is None else init[i][a] for (i, a) in self.skeys]
+
+    def step(self, t, cur, ins, simplify=False):
+        """returns (watched outputs at step t, next state values)"""
+        ds = self.domsets[t % len(self.domsets)]
+        tup, nout = self.templates[ds]
+        pairs = list(zip(self.tvars, cur)) + [(v, ins[n]) for n, v in zip(self.tin_names, self.tin_vars)]
+        inst = z3.substitute(tup, *pairs)
+        if simplify:
+            inst = z3.simplify(inst)
+        kids = inst.children()
+        return kids[:nout], kids[nout:]
+
+
+class FastUnrolling:
+    """BMC unrolling by template instantiation: the transition relation is translated ONCE into z3 terms over
+    template state/input variables (one template per distinct set of ticking domains) and instantiated per step
+    with z3.substitute (C speed).  Semantically identical to `Unrolling`; only registered harness signals
+    (viol/cover/assume/kf/obs) are observable."""
+
+    def __init__(self, q, h=None):
+        self.q = q
+        self.h = h = h or q.factory()
+        t0 = time.time()
+        self.ts = ts = TS(h, _ports(h))
+        extra = set(ts.domains) - set(h.domains)
+        if extra:
+            raise RuntimeError(f"design has clock domains {ts.domains}, harness declares {h.domains}")
+        self.consts = {}
+        self.watched = []
+        for tab in (h._viols, h._covers, h._assumes, h._kfs, h._obs):
+            for s in tab.values():
+                if s in ts.netlist.signals and len(s) > 0:
+                    self.watched.append(s)
+        self._widx = {id(s): k for k, s in enumerate(self.watched)}
+        self._tm = tm = Template(ts, self.watched, h.schedule)
+        self._skeys = tm.skeys
+        domsets = tm.domsets
+        # ---- instantiate
+        init = ts.init_state(_mem_override(ts, q, self.consts))
+        cur = tm.init_values(init)
+        self.outs = []
+        self.ok = []
+        okc = z3.BoolVal(True)
+        aidx = [self._widx[id(s)] for s in h._assumes.values() if id(s) in self._widx]
+        for t in range(q.K):
+            ins = _input_vars(ts, h, t, self.consts, q.layer)
+            outs, cur = tm.step(t, cur, ins)
+            kids = outs
+            self.outs.append(outs)
+            a = [kids[k] == 1 for k in aidx]
+            okc = z3.And(okc, *a) if a else okc
+            self.ok.append(okc)
+        self.unroll_s = time.time() - t0
+
+    def sig(self, t, s):
+        k = self._widx.get(id(s))
+        if k is None:
+            return bv(s.init, len(s))      # registered but never driven: constant at its reset value
+        return self.outs[t][k]
+
+
 def _kf_for(findings, prop, assertion):
     return [f for f in findings if f.get("property") == prop and f.get("assertion") == assertion
             and f.get("status", "open") == "open"]
@@ -227,7 +321,7 @@ def _mem_values_from_model(model, consts):
 def run_bmc(q, prop, findings):
     """returns list of sub-results"""
     res = []
-    U = Unrolling(q)
+    U = FastUnrolling(q) if os.environ.get("VERIF_SLOW_UNROLL") != "1" else Unrolling(q)
     h, ts = U.h, U.ts
     base = dict(query=q.name, kind="bmc", K=q.K, design=ts.describe(), unroll_s=round(U.unroll_s, 2),
                 layer={k: ("fn" if callable(v) else v) for k, v in q.layer.items()})
@@ -432,7 +526,8 @@ def run_cosim(q, prop, findings):
     sim.add_testbench(tb)
     t0 = time.time()
     sim.run()
-    state = ts.init_state()
+    tm = Template(ts, watched, h.schedule)
+    cur = tm.init_values(ts.init_state())
     mism = []
     events = 0
     byname = {sig.name: name for name, (sig, _) in h._inputs.items()}
@@ -443,19 +538,14 @@ def run_cosim(q, prop, findings):
                 ins[pname] = bv(steps[t][byname[pname]], width)
             else:
                 ins[pname] = bv(0, 1)
-        f = ts.frame(state, ins)
+        outs, cur = tm.step(t, cur, ins, simplify=True)
         for k, s in enumerate(watched):
-            v = f.sig(s)
-            if v is None:
-                continue
-            v = z3.simplify(v).as_long()
+            v = outs[k].as_long()
             sv = simtrace[t][k]
             if sv < 0:
                 sv += 1 << len(s)
             if v != sv:
                 mism.append((t, s.name, v, sv))
-        ns = f.next_state()
-        state = {k: (z3.simplify(v) if not isinstance(v, list) else [z3.simplify(x) for x in v]) for k, v in ns.items()}
         if len(mism) > 5:
             break
     ncov = len(h._covers)
@@ -540,7 +630,7 @@ def _worker(q, prop, findings, conn):
         conn.close()
 
 
-def run_all(queries, prop, findings, jobs=None):
+def run_all(queries, prop, findings, jobs=None, on_result=None):
     jobs = jobs or int(os.environ.get("VERIF_JOBS", "16"))
     ctx = mp.get_context("fork")
     pending = list(queries)
@@ -559,7 +649,11 @@ def run_all(queries, prop, findings, jobs=None):
         for q, p, pc, t0 in running:
             if pc.poll():
                 try:
-                    results.extend(pc.recv())
+                    got = pc.recv()
+                    results.extend(got)
+                    if on_result:
+                        for g in got:
+                            on_result(g)
                 except EOFError:
                     results.append(dict(query=q.name, kind=q.kind, check="*", status="error",
                                         error="worker died", required=q.required))
